@@ -49,7 +49,7 @@ pub fn cases(ctx: &mut Ctx) -> Vec<Case> {
                 step(Op::Get(g))
             };
             s.uv = *ctx.rng.pick(&uvs);
-            if ctx.rng.below(8) == 0 { s.faults = vec![None, Some(0x7F)]; }
+            if ctx.rng.below(5) == 0 { let c = *ctx.rng.pick(&[0x7Fu8, 0xF1, 0xE3, 0x41, 0x28, 0x01]); s.faults = if ctx.rng.bool() { vec![None, Some(c)] } else { vec![Some(c)] }; }
             steps.push(s);
         }
         steps.push(info_step(UvState::ok()));
